@@ -1,17 +1,20 @@
 #!/bin/bash
-# usage: tools_verify_seed.sh <worktree> <prop> <seed-id>
+# usage: tools/verify_seed.sh <worktree> <prop> <seed-id>
 # Confirms a sub-agent's seeded change (tests pass, demo fails with / passes without) and runs the check against it.
+# (no `git stash`: refs/stash is shared by all worktrees of a repository)
 set -u
+VERIF=$(dirname "$(dirname "$(realpath "$0")")")
 WT=$1; PROP=$2; ID=$3
 cd "$WT" || exit 9
-echo "== patch matches working tree: $(git diff -- a5 | diff -q - patch.diff >/dev/null && echo yes || echo NO)"
+git diff -- a5 > patch.diff
+echo "== files: $(git status --short | tr '\n' ' ')"
 echo "== pytest with change"; PYTHONPATH=$WT timeout 900 /venv/bin/python -m pytest -q -p no:cacheprovider 2>&1 | tail -1
-echo "== demo with change"; PYTHONPATH=$WT timeout 900 /venv/bin/python demo.py > /tmp/demo_with.out 2>&1; echo "exit $?"; tail -3 /tmp/demo_with.out | cut -c1-300
-git stash -q -- a5
-echo "== demo without change"; PYTHONPATH=$WT timeout 900 /venv/bin/python demo.py > /tmp/demo_without.out 2>&1; echo "exit $?"; tail -2 /tmp/demo_without.out | cut -c1-300
-git stash pop -q
+echo "== demo with change"; PYTHONPATH=$WT timeout 900 /venv/bin/python demo.py > /tmp/demo_with_$ID.out 2>&1; echo "exit $?"; tail -3 /tmp/demo_with_$ID.out | cut -c1-300
+git apply -R patch.diff || exit 8
+echo "== demo without change"; PYTHONPATH=$WT timeout 900 /venv/bin/python demo.py > /tmp/demo_without_$ID.out 2>&1; echo "exit $?"; tail -2 /tmp/demo_without_$ID.out | cut -c1-300
+git apply patch.diff || exit 8
 echo "== check $PROP against it"
-cd /verif
+cd "$VERIF"
 start=$(date +%s)
-A5SIM_REPLAY_DIR=/tmp/seed-replays timeout 1500 /venv/bin/python /verif/check $PROP --a5-root $WT --no-evidence 2>&1 | tail -4 | cut -c1-400
+A5SIM_REPLAY_DIR=/tmp/seed-replays timeout 1500 /venv/bin/python "$VERIF/check" $PROP --a5-root $WT --no-evidence 2>&1 | tail -4 | cut -c1-400
 echo "check exit ${PIPESTATUS[0]} in $(( $(date +%s) - start ))s"
